@@ -69,18 +69,28 @@ func (x *g) genGadgetService() {
 	// 4. bytes announced as text
 	blob := &spec.Method{Name: "blob", NoSec: nosec, Result: &spec.Attr{Type: &spec.Type{Kind: spec.Bytes}},
 		HTTP: &spec.HTTP{Routes: []spec.Route{{Verb: "GET", Path: "/blob"}}, Responses: []*spec.HTTPResponse{{Status: 200, ContentType: "text/plain"}}}}
+	// a NAMED map type carried by a query parameter (name[key]=value, like an inline map)
+	filters := &spec.UserType{Name: x.typeName("GFilters"), Kind: "alias", Def: &spec.Type{Kind: spec.Map, Key: &spec.Attr{Type: str()}, Elem: &spec.Attr{Type: str()}}}
+	x.s.Types = append(x.s.Types, filters)
+	// a NAMED array type whose elements are of a named primitive type with a validation of its own, in the query too
+	one := 1.0
+	gid := &spec.UserType{Name: x.typeName("GId"), Kind: "alias", Def: intT(), Val: &spec.Val{Min: &one}}
+	gids := &spec.UserType{Name: x.typeName("GIds"), Kind: "alias", Def: &spec.Type{Kind: spec.Array, Elem: &spec.Attr{Type: &spec.Type{Kind: spec.Ref, Ref: gid.Name}}}}
+	x.s.Types = append(x.s.Types, gid, gids)
 	// 5. defaulted arrays of non-string primitives outside the body
 	sizes := &spec.Method{Name: "sizes", NoSec: nosec,
 		Payload: &spec.Attr{Type: &spec.Type{Kind: spec.Object, Attrs: []*spec.Attr{
 			{Name: "sizes", Type: &spec.Type{Kind: spec.Array, Elem: &spec.Attr{Type: intT()}}, Default: []any{vtree.I(10), vtree.I(20)}, HasDef: true},
 			{Name: "flags", Type: &spec.Type{Kind: spec.Array, Elem: &spec.Attr{Type: &spec.Type{Kind: spec.Boolean}}}, Default: []any{vtree.B(true), vtree.B(false)}, HasDef: true},
 			{Name: "note", Type: str()},
+			{Name: "filters", Type: &spec.Type{Kind: spec.Ref, Ref: filters.Name}},
+			{Name: "ids", Type: &spec.Type{Kind: spec.Ref, Ref: gids.Name}},
 			// collections with non-empty defaults in the BODY: unset takes the default, explicitly empty stays empty
 			{Name: "tags", Type: &spec.Type{Kind: spec.Array, Elem: &spec.Attr{Type: str()}}, Default: []any{vtree.S("a"), vtree.S("b")}, HasDef: true},
 			{Name: "limits", Type: &spec.Type{Kind: spec.Map, Key: &spec.Attr{Type: str()}, Elem: &spec.Attr{Type: intT()}}, Default: vtree.MkMap(map[string]any{"s:base": vtree.I(1)}), HasDef: true},
 		}}},
 		HTTP: &spec.HTTP{Routes: []spec.Route{{Verb: "POST", Path: "/sizes"}},
-			Query: []spec.Loc{{Attr: "sizes"}}, Headers: []spec.Loc{{Attr: "flags", Wire: "X-G-Flags"}}}}
+			Query: []spec.Loc{{Attr: "sizes"}, {Attr: "ids"}}, Headers: []spec.Loc{{Attr: "flags", Wire: "X-G-Flags"}}}}
 	// 6. the same nested collection as the explicit body of a response (Body("sheet")), next to a header
 	sheet := &spec.Method{Name: "sheet", NoSec: nosec,
 		Result: &spec.Attr{Type: &spec.Type{Kind: spec.Object, Attrs: []*spec.Attr{
@@ -89,6 +99,11 @@ func (x *g) genGadgetService() {
 		}}},
 		HTTP: &spec.HTTP{Routes: []spec.Route{{Verb: "GET", Path: "/sheet"}},
 			Responses: []*spec.HTTPResponse{{Status: 200, Headers: []spec.Loc{{Attr: "label", Wire: "X-G-Label"}}, Body: "attr:sheet"}}}}
+	// (a map parameter makes the Swagger 2.0 document invalid, a listed finding that hides later errors of the same
+	// document: half of the gadget services only)
+	if x.r.Derive(0xf117e5).Chance(1, 2) {
+		sizes.HTTP.Query = append(sizes.HTTP.Query, spec.Loc{Attr: "filters"})
+	}
 	// a change that breaks the whole-body methods at compile time must not hide the others: one variant per design
 	methods := []*spec.Method{jar, blob, sizes, sheet}
 	if gr.Chance(1, 2) {
